@@ -2869,6 +2869,10 @@ func (r *Runtime) leave() {
 func (r *Runtime) leaveAbrupt() {
 	r.jobQueue = nil
 	r.ClearInterrupt()
+	// control is outside the Runtime: do not keep the aborted program as the "current" one,
+	// otherwise the next call from Go records a phantom frame for it in every stack trace
+	r.vm.prg = nil
+	r.vm.sb = -1
 }
 
 func nilSafe(v Value) Value {
